@@ -1,7 +1,465 @@
-//! C01 harness (stub until built)
-use crate::util::*;
+//! C01: HLSL export preserves the meaning of every accepted program.
+//!
+//! request : C01.fn \t <source, one line> \t <function name> \t <argument vectors> \t <ctx> \t <ir>
+//!   ctx   : `vars=<id>:<emitted name>:<type>,...;globs=<id>:<name>:<type>:<initial value>,...;funcs=<id>:<name>,...;target=<id>`
+//!   ir    : s-expressions of every user function, ids resolved through the public registries
+//!   args  : `v,v;v,v;...` one value per parameter (`b:1`, `i:0000002a`, `u:…`, `f:…`)
+//!   (on `--requests` replay only source, function name and argument vectors are read; ctx and ir are recomputed)
+//! observe : `ast <s-expression of the exporter's FunctionDefinition (hook verif_generate_ast)> ;; run <outcome per vector>`
+//!           outcome = `r=<ret> p=<final params> g=<final globals>` of the harness's reference evaluation of the IR | `none`
+//!           | `panic <category>` | `unsupported <node>` (outside the modelled subset)
+//! oracle  : (independent of the Lean model) for both HLSL flavours the emitted *text* is re-parsed with the real
+//!           parser and run by a C-semantics evaluator; return value, final out/inout parameters and final static globals
+//!           must be bit-identical to the reference evaluation of the IR on every argument vector; the dx and vk syntax
+//!           trees of the function must be equal; a panic of the exporter is a failure.
+mod conv;
+mod eval;
+mod pgen;
+mod sx;
 
-pub fn run(_args: &Args, _out: &mut Out) {
-    eprintln!("C01: harness not built yet");
-    std::process::exit(2);
+use crate::compile_util::*;
+use crate::util::*;
+use conv::*;
+use eval::*;
+use rssl::ir;
+use sx::*;
+
+fn unescape(s: &str) -> String {
+    let mut o = String::new();
+    let mut it = s.chars();
+    while let Some(c) = it.next() {
+        if c == '\\' {
+            match it.next() {
+                Some('n') => o.push('\n'),
+                Some('t') => o.push('\t'),
+                Some('r') => o.push('\r'),
+                Some('\\') => o.push('\\'),
+                Some(x) => {
+                    o.push('\\');
+                    o.push(x)
+                }
+                None => o.push('\\'),
+            }
+        } else {
+            o.push(c);
+        }
+    }
+    o
+}
+
+fn panic_category(p: &str) -> String {
+    if p.contains("negate with overflow") {
+        "negate-overflow".into()
+    } else if p.contains("cannot represent") {
+        "cannot-represent".into()
+    } else if p.contains("assertion") {
+        "assert".into()
+    } else {
+        "other".into()
+    }
+}
+
+fn parse_text(text: &str) -> Result<rssl_ast::Module, String> {
+    let mut sm = rssl::text::SourceManager::new();
+    let mut inc = MemFiles(vec![("out.hlsl".to_string(), text.to_string())]);
+    let tokens = rssl::preprocess::preprocess("out.hlsl", &mut sm, &mut inc, &[]).map_err(|_| "preprocess".to_string())?;
+    let tokens = rssl::preprocess::prepare_tokens(&tokens);
+    rssl::parser::parse(&tokens).map_err(|_| "parse".to_string())
+}
+
+fn arg_vectors(rng: &mut Rng, params: &[(u8, T)], n: usize) -> Vec<Vec<V>> {
+    let ints: [u32; 12] = [0, 1, 2, 3, 7, 31, 32, 0x7fff_ffff, 0x8000_0000, 0xffff_ffff, 0xffff_fff9, 1000];
+    (0..n)
+        .map(|k| {
+            params
+                .iter()
+                .map(|(_, t)| {
+                    let raw = if k == 0 { 0 } else if rng.chance(2, 3) { *rng.pick(&ints) } else { rng.next() as u32 };
+                    match t {
+                        T::Bool => V::B(raw & 1 == 1),
+                        T::Int => V::I(raw),
+                        T::Uint => V::U(raw),
+                        T::Float => V::F(raw),
+                        _ => V::Void,
+                    }
+                })
+                .collect()
+        })
+        .collect()
+}
+
+fn show_vectors(vs: &[Vec<V>]) -> String {
+    vs.iter().map(|v| v.iter().map(|x| x.show()).collect::<Vec<_>>().join(",")).collect::<Vec<_>>().join(";")
+}
+
+fn parse_vectors(s: &str) -> Option<Vec<Vec<V>>> {
+    if s.is_empty() {
+        return Some(vec![vec![]]);
+    }
+    s.split(';')
+        .map(|v| if v.is_empty() { Some(vec![]) } else { v.split(',').map(V::parse).collect::<Option<Vec<V>>>() })
+        .collect()
+}
+
+struct Prepared {
+    ir: ir::Module,
+    prog: Vec<Sx>,
+    /// (function id, source name, emitted name)
+    funcs: Vec<(u32, String, String)>,
+    vars: String,
+    globs: String,
+    /// (global id, emitted name, initial value)
+    globals: Vec<(u32, String, V)>,
+    funcs_ctx: String,
+}
+
+fn prepare(src: &str, hist: &mut Hist) -> Result<Prepared, String> {
+    let ir = match front_end_src(src) {
+        Ok(m) => m,
+        Err(e) => return Err(format!("front end ({}): {}", e.stage(), one_line(&e.text().chars().take(100).collect::<String>()))),
+    };
+    let names = ir::name_generator::NameMap::build(&ir, &[], false);
+    let mut cv = IrConv::new(&ir);
+    let mut prog = Vec::new();
+    let mut funcs = Vec::new();
+    let mut global_ids = Vec::new();
+    for rd in &ir.root_definitions {
+        match rd {
+            ir::RootDefinition::Function(id) => {
+                if let Some(f) = cv.func(*id, hist) {
+                    prog.push(f);
+                    funcs.push((
+                        id.0,
+                        ir.function_registry.get_function_name(*id).to_string(),
+                        names.get_name_leaf(ir::name_generator::NameSymbol::Function(*id)).to_string(),
+                    ));
+                }
+            }
+            ir::RootDefinition::GlobalVariable(id) => global_ids.push(*id),
+            _ => {}
+        }
+    }
+    let vars: Vec<String> = cv
+        .vars
+        .iter()
+        .map(|v| {
+            let id = ir::VariableId(*v);
+            let lv = ir.variable_registry.get_local_variable(id);
+            format!(
+                "{}:{}:{}",
+                v,
+                names.get_name_leaf(ir::name_generator::NameSymbol::LocalVariable(id)),
+                ir_type(&ir, lv.type_id).map(|t| t.name()).unwrap_or("unsupported")
+            )
+        })
+        .collect();
+    // static globals with their initial values (the initialiser evaluated by the reference IR semantics)
+    let mut globals = Vec::new();
+    let mut globs = Vec::new();
+    let ev = IrEval::new(&[]);
+    for id in global_ids {
+        let g = &ir.global_registry[id.0 as usize];
+        let name = names.get_name_leaf(ir::name_generator::NameSymbol::GlobalVariable(id)).to_string();
+        let t = ir_type(&ir, g.type_id);
+        let init = match &g.init {
+            Some(ir::Initializer::Expression(e)) => {
+                let sx = IrConv::new(&ir).expr(e, &mut Hist::default());
+                ev.eval(&sx, &mut Default::default(), 1).unwrap_or(V::Void)
+            }
+            _ => V::Void,
+        };
+        globs.push(format!("{}:{}:{}:{}", id.0, name, t.map(|t| t.name()).unwrap_or("unsupported"), init.show()));
+        globals.push((id.0, name, init));
+    }
+    let funcs_ctx = funcs.iter().map(|(i, _, n)| format!("{}:{}", i, n)).collect::<Vec<_>>().join(",");
+    Ok(Prepared { ir, prog, funcs, vars: vars.join(","), globs: globs.join(","), globals, funcs_ctx })
+}
+
+/// `c ? (x = e) : f`: printed as `c ? x = e : f`, which is valid C/HLSL (the middle operand of `?:` is a full
+/// expression) but which rssl's own parser rejects; that is a finding of C04/C09, and only deprives C01 of its text oracle
+fn has_assignment_in_ternary_middle(e: &Sx) -> bool {
+    if let Sx::L(items) = e {
+        if e.head() == "tern" {
+            let m = &e.args()[1];
+            if m.head() == "op" && matches!(op_sem(m.args()[0].atom()), OpSem::Assign | OpSem::Compound(_)) {
+                return true;
+            }
+        }
+        return items.iter().any(has_assignment_in_ternary_middle);
+    }
+    false
+}
+
+/// `a < b || (T)c > d`: printed without parentheses (valid HLSL), but rssl's parser tries `<b || (T)c>` as a template
+/// argument list followed by a cast-like `(…)` and gives up: again a C04/C09 finding that only removes the text oracle here
+fn has_less_then_greater_with_cast(e: &Sx) -> bool {
+    fn any_op(e: &Sx, pred: &dyn Fn(&Sx) -> bool) -> bool {
+        if let Sx::L(items) = e {
+            if e.head() == "op" && pred(e) {
+                return true;
+            }
+            return items.iter().any(|i| any_op(i, pred));
+        }
+        false
+    }
+    let lt = |e: &Sx| matches!(e.args()[0].atom(), "LessThan" | "LeftShift" | "LeftShiftAssignment" | "LessEqual");
+    let gt = |e: &Sx| {
+        matches!(e.args()[0].atom(), "GreaterThan" | "RightShift" | "GreaterEqual" | "RightShiftAssignment")
+            && e.args()[1..].iter().any(|x| x.head() == "cast")
+    };
+    any_op(e, &lt) && any_op(e, &gt)
+}
+
+/// all-literal operand lists of typed Int32 constants (the side condition `LitOK` of the theorems)
+fn litok_violations(e: &Sx) -> u64 {
+    let is_i32 = |x: &Sx| x.head() == "lit" && x.args()[0].atom() == "i32";
+    let mut n = 0;
+    if let Sx::L(items) = e {
+        match e.head() {
+            "op" if e.args().len() >= 2 && e.args()[1..].iter().all(is_i32) => n += 1,
+            "tern" if is_i32(&e.args()[1]) && is_i32(&e.args()[2]) => n += 1,
+            "seq" if e.args().last().map(is_i32).unwrap_or(false) => n += 1,
+            _ => {}
+        }
+        for i in items {
+            n += litok_violations(i);
+        }
+    }
+    n
+}
+
+fn run_program(src: &str, only: Option<(&str, &[Vec<V>])>, nvec: usize, rng: &mut Rng, out: &mut Out, hist: &mut Hist) {
+    let src1 = one_line(src);
+    let p = match prepare(src, hist) {
+        Ok(p) => p,
+        Err(why) => {
+            hist.add("skip:front-end");
+            out.case(&format!("C01.fn\t{}\t-\t\t-\t-", src1), "skip", &format!("SKIP:{}", why));
+            return;
+        }
+    };
+    hist.add("programs");
+    let prog_text = p.prog.iter().map(|f| f.show()).collect::<Vec<_>>().join(" ");
+    let lv: u64 = p.prog.iter().map(litok_violations).sum();
+    if lv > 0 {
+        hist.add("litok-violating-programs");
+    }
+    // the exporter's trees (hook) and the emitted texts for both flavours
+    let ast_dx = guard(|| rssl_hlsl::verif_generate_ast(&p.ir, false));
+    let ast_vk = guard(|| rssl_hlsl::verif_generate_ast(&p.ir, true));
+    let text_dx = compile_src(src, Tgt::Dx, Mode::NoPipeline);
+    let text_vk = compile_src(src, Tgt::Vk, Mode::NoPipeline);
+    let reparsed = |o: &CompileOutcome| -> Result<Vec<Sx>, String> {
+        match o {
+            CompileOutcome::Ok(ps) if ps.len() == 1 => parse_text(&ps[0].text()).map(|m| ast_module(&m)),
+            CompileOutcome::Ok(_) => Err("compile returned several outputs".into()),
+            CompileOutcome::Err(e) => Err(format!("compile error {}", one_line(&e.chars().take(80).collect::<String>()))),
+            CompileOutcome::Panic(p) => Err(format!("panic {}", p)),
+        }
+    };
+    let re_dx = reparsed(&text_dx);
+    let re_vk = reparsed(&text_vk);
+    let ir_eval = IrEval::new(&p.prog);
+    let global_names: Vec<String> = p.globals.iter().map(|g| g.1.clone()).collect();
+    let global_vals: Vec<(u32, V)> = p.globals.iter().map(|g| (g.0, g.2)).collect();
+
+    for (fi, (fid, src_name, emitted)) in p.funcs.iter().enumerate() {
+        if let Some((want, _)) = only {
+            if want != src_name {
+                continue;
+            }
+        }
+        let f = &p.prog[fi];
+        let params: Vec<(u8, T)> = f.args()[2]
+            .args()
+            .iter()
+            .map(|q| {
+                (
+                    match q.args()[1].atom() {
+                        "out" => 1u8,
+                        "inout" => 2u8,
+                        _ => 0u8,
+                    },
+                    T::parse(q.args()[2].atom()).unwrap_or(T::Void),
+                )
+            })
+            .collect();
+        let vectors: Vec<Vec<V>> = match only {
+            Some((_, v)) => v.to_vec(),
+            None => arg_vectors(rng, &params, nvec),
+        };
+        let req = format!(
+            "C01.fn\t{}\t{}\t{}\tvars={};globs={};funcs={};target={}\t{}",
+            src1,
+            src_name,
+            show_vectors(&vectors),
+            p.vars,
+            p.globs,
+            p.funcs_ctx,
+            fid,
+            prog_text
+        );
+        let unsupported = p.prog.iter().any(|g| g.contains_head("unsupported")) || p.vars.contains("unsupported") || p.globs.contains("unsupported");
+        let mut fails: Vec<String> = Vec::new();
+        // ---- observation: exporter tree + reference evaluation of the IR
+        let find_fn = |m: &rssl_ast::Module| -> Option<Sx> {
+            m.root_definitions.iter().find_map(|rd| match rd {
+                rssl_ast::RootDefinition::Function(fd) if &fd.name.node == emitted => Some(ast_func(fd)),
+                _ => None,
+            })
+        };
+        let ir_results: Vec<Option<Outcome>> = vectors.iter().map(|v| ir_eval.run(*fid, v, &global_vals)).collect();
+        let run_text = ir_results.iter().map(show_outcome).collect::<Vec<_>>().join(" | ");
+        let obs = match (&ast_dx, &ast_vk) {
+            (Ok(Ok(mdx)), Ok(Ok(mvk))) => match (find_fn(mdx), find_fn(mvk)) {
+                (Some(a1), Some(a2)) => {
+                    if a1 != a2 {
+                        fails.push(format!("dx and vk syntax trees of {} differ", emitted));
+                    }
+                    if unsupported { "unsupported".to_string() } else { format!("ast {} ;; run {}", a1.show(), run_text) }
+                }
+                _ => {
+                    fails.push(format!("function {} missing from the exported module", emitted));
+                    "missing".to_string()
+                }
+            },
+            (Err(pn), _) | (_, Err(pn)) => {
+                fails.push(format!("panic {}", pn));
+                format!("panic {}", panic_category(pn))
+            }
+            _ => {
+                fails.push("generate error".into());
+                "generate-error".to_string()
+            }
+        };
+        // ---- oracle: emitted text, re-parsed, under C semantics == IR under typed semantics
+        let mut skip_text = false;
+        if fails.is_empty() && !unsupported {
+            for (flav, re) in [("dx", &re_dx), ("vk", &re_vk)] {
+                match re {
+                    Err(e) if e == "parse" && p.prog.iter().any(has_assignment_in_ternary_middle) => {
+                        hist.add("text-not-reparsable-by-rssl(ternary-middle-assignment)");
+                        skip_text = true;
+                    }
+                    Err(e) if e == "parse" && p.prog.iter().any(has_less_then_greater_with_cast) => {
+                        hist.add("text-not-reparsable-by-rssl(less-than … cast greater-than)");
+                        skip_text = true;
+                    }
+                    Err(e) => fails.push(format!("{}: emitted text unusable: {}", flav, e)),
+                    Ok(items) => {
+                        if items.iter().any(|i| i.contains_head("unsupported")) {
+                            hist.add("text-unsupported");
+                            continue;
+                        }
+                        let ae = AstEval::new(items);
+                        // initial values of the globals must agree as well
+                        match ae.init_globals() {
+                            Some(gl) => {
+                                for (_, n, v) in &p.globals {
+                                    if gl.get(n).copied().unwrap_or(V::Void) != *v {
+                                        fails.push(format!("{}: initial value of static {} differs", flav, n));
+                                    }
+                                }
+                            }
+                            None => fails.push(format!("{}: global initialisers do not evaluate", flav)),
+                        }
+                        for (v, want) in vectors.iter().zip(&ir_results) {
+                            take_why();
+                            let _ = ir_eval.run(*fid, v, &global_vals);
+                            let why_ir = take_why();
+                            let got = ae.run(emitted, v, &global_names);
+                            let why_text = take_why();
+                            hist.add(if want.is_some() { "vector:defined" } else { "vector:none" });
+                            // where the reference evaluation of the IR is itself undefined (stuck on something the
+                            // reference semantics does not define, or out of fuel) there is nothing to compare with
+                            if want.is_some() && &got != want {
+                                fails.push(format!(
+                                    "{}: args [{}]: IR gives {} but emitted text gives {} (stuck at: {}{})",
+                                    flav,
+                                    v.iter().map(|x| x.show()).collect::<Vec<_>>().join(","),
+                                    show_outcome(want),
+                                    show_outcome(&got),
+                                    why_ir,
+                                    why_text
+                                ));
+                                break;
+                            }
+                        }
+                    }
+                }
+            }
+        }
+        hist.add(if unsupported { "fn:unsupported" } else { "fn:supported" });
+        let oracle = if !fails.is_empty() {
+            format!("FAIL:{}", fails[0])
+        } else if skip_text {
+            "ok(text oracle not available: rssl cannot re-parse its own output here, see notes)".to_string()
+        } else {
+            "ok".to_string()
+        };
+        out.case(&req, &obs, &oracle);
+    }
+}
+
+pub fn run(args: &Args, out: &mut Out) {
+    let mut hist = Hist::default();
+    if args.extra.first().map(|s| s.as_str()) == Some("dump") {
+        // debugging aid: harness c01 dump FILE
+        let src = std::fs::read_to_string(&args.extra[1]).unwrap_or_default();
+        match prepare(&src, &mut hist) {
+            Ok(p) => {
+                for f in &p.prog {
+                    println!("IR  {}", f.show());
+                }
+                for t in [Tgt::Dx, Tgt::Vk] {
+                    if let CompileOutcome::Ok(ps) = compile_src(&src, t, Mode::NoPipeline) {
+                        println!("TEXT {}\n{}", t.name(), ps[0].text());
+                        match parse_text(&ps[0].text()) {
+                            Ok(m) => {
+                                for i in ast_module(&m) {
+                                    println!("AST {}", i.show());
+                                }
+                            }
+                            Err(e) => println!("reparse failed: {}", e),
+                        }
+                    }
+                }
+            }
+            Err(e) => println!("{}", e),
+        }
+        return;
+    }
+    if let Some(lines) = args.request_lines() {
+        for line in lines {
+            let f: Vec<&str> = line.split('\t').collect();
+            if f.len() < 4 || f[0] != "C01.fn" {
+                continue;
+            }
+            let src = unescape(f[1]);
+            let vecs = parse_vectors(f[3]).unwrap_or_else(|| vec![vec![]]);
+            let mut rng = Rng::new(1);
+            if f[2] == "-" {
+                run_program(&src, None, 3, &mut rng, out, &mut hist);
+            } else {
+                run_program(&src, Some((f[2], &vecs)), vecs.len(), &mut rng, out, &mut hist);
+            }
+        }
+        out.stat(&format!("{{\"mode\":\"replay\",\"hist\":{}}}", hist.json()));
+        return;
+    }
+    let n = args.n.unwrap_or(if args.thorough() { 6000 } else { 300 });
+    let nvec = if args.thorough() { 8 } else { 8 };
+    let mut rng = Rng::new(args.seed);
+    for k in 0..n {
+        let mut prng = rng.fork();
+        let opts = pgen::GenOpts { floats: k % 3 != 0, calls: true, max_depth: 1 + (k % 3) as u32 };
+        let src = pgen::Gen::new(&mut prng, opts).program();
+        let mut arng = rng.fork();
+        if let Err(pn) = guard(|| run_program(&src, None, nvec, &mut arng, out, &mut hist)) {
+            // a panic inside the harness itself (not under a guard of the real code): report, never hide
+            hist.add("harness-panic");
+            out.case(&format!("C01.fn\t{}\t-\t\t-\t-", one_line(&src)), "harness-panic", &format!("SKIP:harness panic {}", pn));
+        }
+    }
+    out.stat(&format!("{{\"programs\":{},\"hist\":{}}}", n, hist.json()));
 }
